@@ -292,13 +292,20 @@ double Interpolation::Local_Minimum(double x_1, double x_2)
 	double f_right = Interpolate(x_2);
 	int i_1		   = Locate(x_1);
 	int i_2		   = Locate(x_2);
-	if(i_1 == i_2)
+	// The knots inside [x_1,x_2] (including the first/last knot if x_1/x_2 lies in the extrapolation zone).
+	int k_1 = i_1;
+	while(k_1 < (int) N && x_values[k_1] < x_1)
+		k_1++;
+	int k_2 = i_2 + 1;
+	while(k_2 >= 0 && x_values[k_2] > x_2)
+		k_2--;
+	if(k_1 > k_2)
 		return std::min(f_left, f_right);
 	else
 	{
-		// Find the smallest value of the curve at the knots i_1+1,...,i_2 (a negative prefactor turns the largest tabulated value into the smallest).
-		auto first		 = function_values.begin() + i_1 + 1;
-		auto last		 = function_values.begin() + i_2 + 1;
+		// Find the smallest value of the curve at the knots k_1,...,k_2 (a negative prefactor turns the largest tabulated value into the smallest).
+		auto first		 = function_values.begin() + k_1;
+		auto last		 = function_values.begin() + k_2 + 1;
 		double min_entry = prefactor * ((prefactor < 0.0) ? *std::max_element(first, last) : *std::min_element(first, last));
 		return std::min({f_left, min_entry, f_right});
 	}
@@ -311,13 +318,20 @@ double Interpolation::Local_Maximum(double x_1, double x_2)
 	double f_right = Interpolate(x_2);
 	int i_1		   = Locate(x_1);
 	int i_2		   = Locate(x_2);
-	if(i_1 == i_2)
+	// The knots inside [x_1,x_2] (including the first/last knot if x_1/x_2 lies in the extrapolation zone).
+	int k_1 = i_1;
+	while(k_1 < (int) N && x_values[k_1] < x_1)
+		k_1++;
+	int k_2 = i_2 + 1;
+	while(k_2 >= 0 && x_values[k_2] > x_2)
+		k_2--;
+	if(k_1 > k_2)
 		return std::max(f_left, f_right);
 	else
 	{
-		// Find the largest value of the curve at the knots i_1+1,...,i_2 (a negative prefactor turns the smallest tabulated value into the largest).
-		auto first		 = function_values.begin() + i_1 + 1;
-		auto last		 = function_values.begin() + i_2 + 1;
+		// Find the largest value of the curve at the knots k_1,...,k_2 (a negative prefactor turns the smallest tabulated value into the largest).
+		auto first		 = function_values.begin() + k_1;
+		auto last		 = function_values.begin() + k_2 + 1;
 		double max_entry = prefactor * ((prefactor < 0.0) ? *std::min_element(first, last) : *std::max_element(first, last));
 		return std::max({f_left, max_entry, f_right});
 	}
